@@ -274,6 +274,9 @@ def c10_jobs(tier):
             js.append(rng_job(op, 'int', n, cap, itk=itk))
             if itk != 3: js.append(rng_job(op, 'Tr', n, cap, itk=itk, extra_defs={'VF_SRCINT': 1}, tag='-srcint'))
     js.append(rng_job('insert_range', 'int', 0, 0, itk=1)); js.append(rng_job('insert_range', 'int', 2, 2, itk=2))
+    # single-pass ranges: capacity() and data() stay when the result fits (the count is not known up front, so the at-most-one-reallocation clause does not apply)
+    for op in ['assign_range', 'append_range', 'insert_range']:
+        for ln in (1, 2, 3): js.append(rng_job(op, 'int', 2, 4, itk=0, lenfix=ln))
     return _nn(js)
 REG['C10'] = Spec('C10', c10_jobs, tags=['C10'], explanation=
     'From an arbitrary state: when the model result fits capacity() observed before the call, capacity(), data() and the allocate counter are unchanged and (instrumented type) the per-object touch counter of every '
